@@ -193,6 +193,9 @@ def _analysis(indict, disable_stiffness_check: bool = False, disable_analytic_so
 
     _init_logging(log_level)
 
+    # options are global to the process; make sure that no value set by an earlier call is still in effect
+    Config.reset()
+
     logging.info("Analysing input:")
     logging.info(json.dumps(indict, indent=4, sort_keys=True))
 
